@@ -15,7 +15,7 @@ import sys
 import time
 
 from . import tlc as T
-from .env import BUILD, EVIDENCE, VERIF, MachineryError, run_driver, seed
+from .env import BUILD, EVIDENCE, VERIF, DriverHang, MachineryError, run_driver, seed
 
 KNOWN = os.path.join(VERIF, "known_findings.json")
 
@@ -121,7 +121,16 @@ class Ctx:
 
     # ------------------------------------------------------------------ drivers
     def drive(self, module, args=(), extra_env=None, timeout=3600):
-        out, wall = run_driver(module, args, extra_env, timeout)
+        # a driver of the quick tier finishes in seconds to a few minutes; one that is still running after 25 minutes is
+        # reported as a hang of the code under test (exit 1), not as a failure of the machinery
+        if self.quick():
+            timeout = min(timeout, int(os.environ.get("VERIF_DRIVER_CAP", "1500")))   # (the variable is a development override)
+        try:
+            out, wall = run_driver(module, args, extra_env, timeout)
+        except DriverHang as ex:
+            self._report("reject", "Reject:Timeout", f"driver:{module}", None, None,
+                         {"property": self.pid, "kind": "hang", "module": module, "args": list(map(str, args)), "what": str(ex)})
+            raise
         self.runs.append({"label": module, "kind": "driver", "wall_s": round(wall, 2), "args": list(map(str, args))})
         return out
 
